@@ -544,6 +544,11 @@ enum AeE {
 struct AeInner {
     a: Option<i32>,
 }
+#[derive(Debug, Deserialize)]
+#[allow(dead_code)]
+struct AeNest {
+    v: Vec<i32>,
+}
 #[derive(Debug)]
 struct AeBytes(#[allow(dead_code)] Vec<u8>);
 impl<'de> Deserialize<'de> for AeBytes {
@@ -557,7 +562,7 @@ struct AeDoc<T> {
     s: serde::de::IgnoredAny,
     n: T,
 }
-const AE_POSITIONS: usize = 11;
+const AE_POSITIONS: usize = 13;
 const AE_VALUES: [&str; 4] = ["text", "\u{4e16}\u{754c}", "\"q r\"", "3.5"];
 const AE_GRID: usize = AE_POSITIONS * 4 * 3 * 3;
 fn check_alias_error_sites(code: usize) -> Result<(), String> {
@@ -582,15 +587,21 @@ fn check_alias_error_sites(code: usize) -> Result<(), String> {
         6 => format!("n:\n  <<:{pad} *a\n"),
         7 => format!("n:\n  <<: [{pad}*a]\n"),
         8 => format!("n:\n  k:{pad} *a\n"),
+        // an alias inside a merged mapping that is written in place
+        11 => format!("n:\n  <<: {{a:{pad} *a}}\n"),
+        // no alias at all: a node of the wrong type nested in a merged mapping written in place
+        12 => format!("n:\n  <<: {{v: [1,{pad} {val}]}}\n"),
         _ => format!("n:\n  -{pad} *a\n"),
     };
     text.push_str(&use_lines);
     // ground truth by construction
     let def = (lead + 1, l1.chars().position(|ch| ch == 'a').unwrap() + 3); // "&a " then the value
     let def = (def.0, l1.chars().count() - val.chars().count()); // 1-based column of the value's first character
-    let star_line_off = use_lines.lines().position(|l| l.contains('*')).unwrap();
+    let first = if pos == 12 { val.chars().next().unwrap() } else { '*' };
+    let star_line_off = use_lines.lines().position(|l| l.contains(first)).unwrap();
     let star_line = use_lines.lines().nth(star_line_off).unwrap();
-    let alias = (lead + 2 + star_line_off, star_line.chars().position(|ch| ch == '*').unwrap() + 1);
+    let at = if pos == 12 { star_line.find(val).map(|b| star_line[..b].chars().count()).unwrap() } else { star_line.chars().position(|ch| ch == '*').unwrap() };
+    let alias = (lead + 2 + star_line_off, at + 1);
     fn run<T: for<'de> Deserialize<'de> + std::fmt::Debug>(text: &str) -> Result<serde_saphyr::Error, String> {
         match serde_saphyr::from_str::<AeDoc<T>>(text) {
             Ok(v) => Err(format!("accepted as {v:?}")),
@@ -602,7 +613,8 @@ fn check_alias_error_sites(code: usize) -> Result<(), String> {
         1 => run::<Vec<i32>>(&text),
         2 | 3 | 4 => run::<AeE>(&text),
         5 => run::<AeBytes>(&text),
-        6 | 7 => run::<AeInner>(&text),
+        6 | 7 | 11 => run::<AeInner>(&text),
+        12 => run::<AeNest>(&text),
         8 => run::<std::collections::BTreeMap<String, i32>>(&text),
         9 => run::<Option<i32>>(&text),
         _ => run::<Vec<Option<i32>>>(&text),
@@ -610,6 +622,26 @@ fn check_alias_error_sites(code: usize) -> Result<(), String> {
     .map_err(|m| format!("alias-error-sites: a document with a value of the wrong type is {m} (text {text:?})"))?;
     let ix = index(&text);
     let msg = err.without_snippet().to_string();
+    if pos == 12 {
+        // written where it is used: one position, that of the node, and no second site
+        let Some(l) = err.location() else {
+            return Err(format!("alias-error-sites: the error carries no location: {msg} (text {text:?})"));
+        };
+        consistent(&ix, &l, "error location").map_err(|m| format!("{m} (text {text:?})"))?;
+        let at = (l.line() as usize, l.column() as usize);
+        let two = err.locations().filter(|ls| ls.reference_location != ls.defined_location);
+        if at != alias || two.is_some() {
+            return Err(format!(
+                "alias-error-sites: a node nested in a merged mapping that is written in place (no alias in the document's use of it) is reported at {}:{}{}; the node is at {}:{} ({msg}; text {text:?})",
+                at.0,
+                at.1,
+                two.map(|ls| format!(" with a second site {}:{}", ls.defined_location.line(), ls.defined_location.column())).unwrap_or_default(),
+                alias.0,
+                alias.1
+            ));
+        }
+        return Ok(());
+    }
     let Some(locs) = err.locations() else {
         return Err(format!("alias-error-sites: the error carries no locations: {msg} (text {text:?})"));
     };
